@@ -471,7 +471,7 @@ func TestVerifC11(t *testing.T) {
 		}
 		return
 	}
-	n := 5000
+	n := 3000
 	if vu.Thorough() {
 		n = 30000
 	}
